@@ -226,18 +226,27 @@ class WireBytes(Suite):
 
 class Frames(Suite):
     name = "frames"
-    rule = ("packet sequences (empty packets, packets > 32 KiB pooled buffer, STAT/DATA mixes) written through util.NewProtoStream and read back through a reader "
+    rule = ("packet sequences (empty packets, packets > 32 KiB pooled buffer, every encoded size 32720..32790 around it, STAT/DATA mixes) written through util.NewProtoStream and read back through a reader "
             "that fragments by a generated schedule (1-byte reads .. whole stream); packets compared, and re-compared after later receives (aliasing); "
             "non-trivial = >= 2 packets, distinct")
 
     def gen(self, rng, tier):
         n = {"quick": 400, "thorough": 20000, "search": 100}[tier]
         ops = []
+        # every encoded packet size around the pooled 32 KiB buffer (header bytes included): a deterministic sweep
+        if tier != "search":
+            for L in range(32768 - 48, 32768 + 16):
+                idv = rng.choice([0, 7, 300, 4294967295])
+                ops.append({"op": "frames", "pkts": [{"type": 2, "id": idv, "stat": None, "data": hx(bytes([L % 251]) * L)},
+                                                     {"type": 4, "id": 0, "stat": None, "data": None}],
+                            "frag": [rng.choice([1, 4096, 0])] if L % 8 else [4096, 0]})
         for _ in range(n):
             pkts = []
             for _ in range(rng.randint(1, 6)):
                 r = rng.random()
-                if r < 0.15:
+                if r < 0.05:
+                    p = {"type": 2, "id": rng.choice(UINT32S), "stat": None, "data": hx(bytes([rng.randrange(256)]) * (32768 + rng.randint(-48, 16)))}
+                elif r < 0.15:
                     p = {"type": 0, "id": 0, "stat": None, "data": None}      # encodes to zero bytes
                 elif r < 0.3:
                     p = {"type": 2, "id": rng.choice(UINT32S), "stat": None, "data": hx(bytes([rng.randrange(256)]) * rng.choice([32768, 32769, 40000, 70000]))}
